@@ -32,7 +32,7 @@ def check(ctx, run):
     fn = "from::<impl std::convert::From<&serde_json::Value> for value::Value<'a>>::from"
     b = f.bodies.get(fn)
     if b is None:
-        run.violation('R19.2', fn, 'body', 'converter not found (anchor lost)')
+        run.undecided('R19.2', fn, 'body', 'converter not found (anchor lost)')
     else:
         ps, _ = explore(b)
         kinds = {}
@@ -67,7 +67,7 @@ def check(ctx, run):
     fn = "from::<impl std::convert::From<value::Value<'a>> for serde_json::Value>::from"
     b = f.bodies.get(fn)
     if b is None:
-        run.violation('R19.2', fn, 'body', 'converter not found (anchor lost)')
+        run.undecided('R19.2', fn, 'body', 'converter not found (anchor lost)')
     else:
         ps, _ = explore(b)
         kinds = {}
@@ -100,7 +100,7 @@ def check(ctx, run):
     b = f.one('functions::scalar_to_serde_json')
     g = lambda n: cv(f, n)
     if b is None:
-        run.violation('R19.2', 'functions::scalar_to_serde_json', 'body', 'converter not found (anchor lost)')
+        run.undecided('R19.2', 'functions::scalar_to_serde_json', 'body', 'converter not found (anchor lost)')
     else:
         ps, _ = explore(b)
         names = {g(n): n for n in ('NULL_TAG', 'STRING_TAG', 'NUMBER_TAG', 'TRUE_TAG', 'FALSE_TAG', 'CONTAINER_TAG')}
@@ -158,7 +158,7 @@ def check(ctx, run):
     for fn, want_none in (('functions::containter_to_serde_json', None), ('functions::containter_to_serde_json_object', True)):
         b = f.one(fn)
         if b is None:
-            run.violation('R19.3', fn, 'body', 'converter not found (anchor lost)')
+            run.undecided('R19.3', fn, 'body', 'converter not found (anchor lost)')
             continue
         from mir import natural_loops
         from sym import Explorer
